@@ -270,6 +270,11 @@ class AnsiString:
                             settings_to_apply.append(setting_value)
                     else:
                         settings_to_apply.append(setting_value)
+                # Apply in the order given by the sequence (not the order of the effect dictionary, which depends
+                # on what was set before) so that rendering and parsing again reproduces the same sequence
+                settings_to_apply = [
+                    s for s in settings if __class__._find_setting_reference(s, settings_to_apply) >= 0
+                ]
                 for setting_key, setting_value in old_settings.items():
                     if setting_key not in new_settings:
                         settings_to_remove.append(setting_value)
